@@ -157,16 +157,36 @@ def describe_diff(case, c_lines, m_lines):
 
 
 # --------------------------------------------------------------------------- main
+def clean_vo():
+    """thorough tier: rebuild the property's own files from scratch (other properties' files are not touched)"""
+    for f in list((vlib.COQ / "C08").glob("*.vo*")) + list((vlib.COQ / "C08").glob("*.glob")) + \
+            list(vlib.COQ.glob("Properties_C08.vo*")) + list(vlib.COQ.glob("Properties_C08.glob")):
+        try:
+            f.unlink()
+        except OSError:
+            pass
+
+
 def run(ctx):
     t0 = time.time()
-    ctx.prove()
+    if not ctx.quick:
+        clean_vo()
+    proved = ctx.prove()
+    if proved and not ctx.quick:
+        rc, out = vlib.sh(["coqchk", "-silent", "-o", "-Q", ".", "LibaV", "LibaV.Properties_C08"], cwd=vlib.COQ, timeout=1200)
+        ok = rc == 0 and "type-in-type: <none>" in out and "unsafe (co)fixpoints: <none>" in out \
+            and "positivity is assumed: <none>" in out
+        ctx.cov["coqchk"] = "coqchk -o LibaV.Properties_C08: %s" % ("ok" if ok else "FAILED rc=%d" % rc)
+        if not ok:
+            ctx.tie_broken("coqchk rejected Properties_C08: " + out[-600:])
+        ctx.log(ctx.cov["coqchk"])
 
     cnum, casan = build_c(ctx)
     rng = random.Random(ctx.subseed("C08/cases"))
     if ctx.quick:
         sizes = [(1, 2), (2, 4), (3, 5), (4, 5), (5, 4), (6, 4), (7, 1), (8, 1)]
-        cases = gen.gen_cases(rng, 1800, sizes)
-        cases += gen.gen_cases(rng, 24, [(10, 1), (12, 1)])
+        cases = gen.gen_cases(rng, 2600, sizes)
+        cases += gen.gen_cases(rng, 32, [(10, 1), (12, 1)])
     else:
         cases = []
         for k in range(5):
@@ -291,6 +311,16 @@ def run(ctx):
                                 "the C output (max observed error / textbook bound above, must stay <= 1); they are not proved. "
                                 "The theorems are exact-arithmetic statements about the same Gallina term.")
     ctx.cov["oracle_cases"] = len(sel)
+    nf = [i for i in range(len(m_lines)) if any(l.startswith(("100 0 ", "200 0 ", "300 0 ")) and
+                                                   any(w[:3] in ("7ff", "fff") for w in l.split()[1:] if len(w) == 16)
+                                                   for l in c_lines[i])]
+    ctx.cov["success_with_nonfinite_factors"] = {
+        "count": len(nf),
+        "note": "finite inputs whose intermediate results overflow: the C code (and, bit for bit, the model) reports success "
+                "with inf/NaN in the factors because 'x < A_REAL_MIN' is false for NaN and for inf pivots; overflow is outside "
+                "the rounding model of the property, these cases are only compared bit-exactly and are not classified as violations",
+        "example": cases[nf[0]].to_json() if nf else
+        {"n": 3, "A": [1e-300, 0, 0, 0, 1, 0, 1e300, 1, 1], "routine": "a_real_llt", "observed": "rc=0, l[2][1]=NaN, l[2][2]=NaN"}}
     ctx.cov["sanitizer"] = "ASan+UBSan build ran the same cases: %s" % ("abort at case %s" % san_case if san_case is not None else "clean, identical output")
     for c in cases[len(corpus_cases()):][:3] + cases[-2:]:
         ctx.sample({"tag": c.tag, "n": c.n, "mask": c.mask, "A": [c08lib.b2d(u) for u in c.A][:16]})
